@@ -59,6 +59,7 @@ func checkC01(p *Prog, r *Report) {
 	checkDoShutdown(p, r, r.Rule("shutdown-flag", "the shutdown flag is set (under the lock) by the very goroutine which then waits for attached streams, before it waits"), a)
 	checkRefusedNoIO(p, r, rIO, a)
 	checkNoticesDelivered(p, r, r.Rule("notices-delivered", "a notice for the operator is handed to the operator channel on every way through the notice functions: no timeout, default arm or cancellation lets one be dropped (a refusal the operator is never told about)"), a)
+	pairingTokenUnder(p, r.Rule("pairing-token", "the two halves of an /io request carry a key which is fresh per request (C06's rule): streams of two /io requests never count as opened with the same ID"), a)
 	checkStateWriters(p, r, r.Rule("state-writers", "the broker's admission state (key and the two cancel slots) is written only by the admission function's own frame, whose paths the decision table covers: not by a goroutine, a timer callback or another function"), a)
 	checkDetachedSilent(p, r, r.Rule("detached-stream-silent", "what is shown to the operator is handed over by the proxies themselves, which end before their stream is detached: no goroutine a proxy starts sends on the operator channel (it could do so after the detachment, beside a new shell's output)"), a)
 	checkHandlerWiring(p, r, rWire)
